@@ -31,6 +31,27 @@ def check(ctx, cfg):
     r5(ctx, cfg)
     r6(ctx, cfg)
     r7(ctx, cfg)
+    r8(ctx, cfg)
+
+
+def r8(ctx, cfg):
+    """"committing makes the base equal to that ordered map": the replay of the log cannot stop half-way.  The base the crate
+    ships (cosmwasm-std's MemoryStorage) panics on an empty value, `Op::apply` hands the logged values on one by one, so an
+    empty value must be refused where it is written - in `StorageTransaction::set`, before it enters view and log - or the
+    transaction that wrote it is applied up to that entry and then dies.  (Stated under C06 only.)"""
+    F, P = cfg.facts, cfg.prov
+    R = "C06.R8"
+    key = "<transactions::StorageTransaction as cosmwasm_std::Storage>::set"
+    f = ctx.need_fn(R, key)
+    if f is None:
+        return
+    sites = [(b, t) for b, t in f.calls() if t["callee"]["name"] in ("insert", "append", "push")]
+    guarded = bool(sites) and all(any(c[0] == "bool" and c[1][0] == "is_empty" and c[1][2] is False and is_param(c[1][1][0], "value")
+                                      for e, c in q.dominating_conditions(P, f, b)) for b, t in sites)
+    ctx.ob(R, key, "empty-values-refused-where-written", guarded,
+           "StorageTransaction::set records an empty value like any other; the root store refuses it only when the log is replayed: "
+           "execute_multi([bank send, contract call doing set(before,1); set(empty,\"\"); set(after,1)]) panics in commit with both bank transfers and "
+           "`before` applied and `after` lost", fn=f, sample="recorded only under !value.is_empty()")
 
 
 def r7(ctx, cfg):
